@@ -74,11 +74,13 @@ type exitRec struct {
 
 // monitor collects hook events of the VM under test (one VM at a time per worker process).
 type monitor struct {
-	mu      sync.Mutex
-	exits   []exitRec
-	steps   int64
-	budget  int64
-	catches int64
+	mu     sync.Mutex
+	exits  []exitRec
+	steps  int64
+	budget int64
+	// first: number of the core that runs the invoked function of the current call
+	first     uint
+	haveFirst bool
 }
 
 const coreRunFrame = "homescript/runtime.(*Core).Run("
@@ -243,9 +245,17 @@ func runHistory(pl Payload) (h *histRun) {
 		mon.mu.Unlock()
 	}
 	runtime.VerifStep = func(c *runtime.Core) {
+		// the budget applies to the core that runs the invoked function (the first and lowest-numbered
+		// core of the call); threads it spawns may legitimately run until they are cancelled
 		mon.mu.Lock()
-		mon.steps++
-		over := mon.steps > mon.budget
+		if !mon.haveFirst || c.Corenum < mon.first {
+			mon.haveFirst, mon.first = true, c.Corenum
+		}
+		over := false
+		if c.Corenum == mon.first {
+			mon.steps++
+			over = mon.steps > mon.budget
+		}
 		mon.mu.Unlock()
 		if over {
 			panic(fw.StepBudgetMsg)
@@ -382,6 +392,7 @@ func runHistory(pl Payload) (h *histRun) {
 		mon.mu.Lock()
 		mon.exits = mon.exits[:0]
 		mon.steps = 0
+		mon.haveFirst = false
 		mon.mu.Unlock()
 		var res runtime.FunctionInvocationResult
 		pv := protect(func() {
